@@ -8,6 +8,9 @@ import (
 )
 
 func (x *Exec) loopSpecOf(s ast.Stmt) *LoopSpec {
+	if (x.loopOrd == nil || x.con == nil) && x.con != nil && x.con.Opts["loops"] == "havoc" {
+		return &LoopSpec{}
+	}
 	if x.loopOrd == nil || x.con == nil {
 		engineFail("loop inside an inlined function (%v): the function needs its own contract with a loop invariant", x.inlineStack)
 	}
@@ -17,6 +20,10 @@ func (x *Exec) loopSpecOf(s ast.Stmt) *LoopSpec {
 	}
 	sp := x.con.Loops[n]
 	if sp == nil {
+		if x.con.Opts["loops"] == "havoc" {
+			x.noteAssume(fmt.Sprintf("loop %d of %s abstracted (no invariant): everything it assigns is havocked, its body is checked from an arbitrary iteration", n, x.unit))
+			return &LoopSpec{}
+		}
 		engineFail("loop %d of %s has no invariant", n, x.unit)
 	}
 	return sp
